@@ -41,7 +41,8 @@ Inductive expr :=
 
 Inductive val :=
 | VN (n : N) | VB (b : bool) | VNone | VSome (v : val) | VRec (fs : list (string * val))
-| VClo (x : string) (body : expr) | VFn (f : string) | VUnit.
+| VClo (x : string) (body : expr) | VFn (f : string) | VUnit
+| VPtr (addr : N) (pointee : val).       (* NonNull<Record>: an address and what is there *)
 
 Inductive outcome :=
 | Ret (v : val)
@@ -109,6 +110,8 @@ Definition meth0 (m : string) (r : val) : outcome :=
   match m, r with
   | "is_power_of_two", VN x => Ret (VB (pow2b x))
   | "next_power_of_two", VN x => if npow2 x <? W then Ret (VN (npow2 x)) else Ovf
+  | "as_ref", VPtr _ v => Ret v                         (* NonNull::as_ref *)
+  | "as_ptr", VPtr a _ => Ret (VN a)                    (* NonNull::as_ptr: the address *)
   | "get", v => Ret v                                   (* Cell::get *)
   | "as_ref", v => Ret v                                (* NonNull::as_ref: the pointee is the record itself *)
   | "as_ptr", v => Ret v                                (* NonNull::as_ptr: addresses are numbers *)
@@ -170,6 +173,8 @@ Fixpoint eval (ft : fntab) (fuel : nat) (en : env) (e : expr) {struct fuel} : ou
           | VB x, VB y => match op with
                           | BEq => Ret (VB (Bool.eqb x y)) | BNe => Ret (VB (negb (Bool.eqb x y)))
                           | BAnd => Ret (VB (x && y)) | BOr => Ret (VB (x || y)) | _ => Stuck end
+          | VPtr x _, VPtr y _ => match op with            (* pointers compare by address *)
+                          | BEq => Ret (VB (x =? y)) | BNe => Ret (VB (negb (x =? y))) | _ => Stuck end
           | _, _ => Stuck
           end))
     | ENot a =>
